@@ -202,3 +202,139 @@ class AssertTracer:
 def rel(path: str) -> str:
     rd = repo_dir()
     return os.path.relpath(path, rd) if path.startswith(rd) else path
+
+
+# ---- generic crash points (C11): the n-th line event / the n-th return of a state-writing function ----
+
+_all_codes_cache = None
+
+
+def all_repo_codes() -> dict:
+    """{code object: relative file} for every function of hand-written repo code (no generated parsers)."""
+    global _all_codes_cache
+    if _all_codes_cache is not None:
+        return _all_codes_cache
+    import gc
+    import types
+
+    root = os.path.join(repo_dir(), "explorerscript") + os.sep
+    skip = os.path.join(root, "antlr") + os.sep
+    out = {}
+    seen = set()
+
+    def visit(code):
+        if id(code) in seen:
+            return
+        seen.add(id(code))
+        fn = code.co_filename
+        if fn.startswith(root) and not fn.startswith(skip):
+            out[code] = fn[len(root):]
+        for c in code.co_consts:
+            if isinstance(c, types.CodeType):
+                visit(c)
+
+    for o in gc.get_objects():
+        if isinstance(o, types.FunctionType):
+            visit(o.__code__)
+    _all_codes_cache = out
+    return out
+
+
+STATE_WRITERS = {
+    "find_first_common_next_vertex_in_edges", "find_first_common_next_vertex_in_edges__clear_cache",
+    "_macros_add_filenames", "add_opcode", "add_macro_opcode", "add_position_mark", "macro_context__push",
+    "macro_context__pop", "next_macro_opcode_called_in", "read_ops", "_single_param_to_string", "write_content",
+}
+
+TOOL_CRASH = 4
+
+_with_lines_cache = None
+
+
+def with_lines() -> dict[str, frozenset[int]]:
+    """{file: first lines of `with` statements}. CPython attributes the implicit __exit__ call of a normal
+    block exit to the `with` line, *outside* the protected range: an exception raised on that line event
+    skips __exit__ (the interpreter-level race of bpo-29988, which no Python code can defend against).
+    Such lines are therefore never crash points; a fault just before entering the block is the same fault
+    as one at the end of the previous line."""
+    global _with_lines_cache
+    if _with_lines_cache is None:
+        out = {}
+        root = os.path.join(repo_dir(), "explorerscript")
+        for p in _py_files(root):
+            try:
+                tree = ast.parse(open(p, encoding="utf-8").read())
+            except SyntaxError:
+                continue
+            lines = {n.lineno for n in ast.walk(tree) if isinstance(n, (ast.With, ast.AsyncWith))}
+            if lines:
+                out[p] = frozenset(lines)
+        _with_lines_cache = out
+    return _with_lines_cache
+
+
+class CrashPoint:
+    """Counts events while fn runs and raises `exc` at the n-th one.
+
+    kind 'line'   : n-th LINE event in hand-written repo code
+    kind 'assert' : n-th execution of an `assert` line anywhere in repo code
+    kind 'return' : n-th return of one of the named state-writing functions (so that the fault lands
+                    between a write and its clean-up rather than uniformly)
+    n = 0 only counts (dry run).
+    """
+
+    def __init__(self, kind: str, n: int, exc):
+        self.kind, self.n, self.exc = kind, n, exc
+        self.count = 0
+        self.fired = False
+        self.fired_at = None
+        codes = all_repo_codes()
+        if kind == "assert":
+            sites = _code_objects_with_sites(assert_sites())
+            self.codes = {c: v[1] for c, v in sites.items()}
+        elif kind == "return":
+            self.codes = {c: None for c in codes if c.co_name in STATE_WRITERS}
+        else:
+            self.codes = {c: None for c in codes}
+        self.withs = with_lines()
+
+    def _line(self, code, line):
+        lines = self.codes.get(code, False)
+        if lines is False:
+            return sys.monitoring.DISABLE
+        if lines is not None and line not in lines:
+            return sys.monitoring.DISABLE
+        w = self.withs.get(code.co_filename)
+        if w is not None and line in w:
+            return sys.monitoring.DISABLE
+        self.count += 1
+        if not self.fired and self.count == self.n:
+            self.fired = True
+            self.fired_at = f"{all_repo_codes().get(code, code.co_filename)}:{code.co_name}:{line}"
+            raise self.exc
+        return None
+
+    def _ret(self, code, offset, retval):
+        if code not in self.codes:
+            return sys.monitoring.DISABLE
+        self.count += 1
+        if not self.fired and self.count == self.n:
+            self.fired = True
+            self.fired_at = f"{all_repo_codes().get(code, code.co_filename)}:{code.co_name}:return"
+            raise self.exc
+        return None
+
+    def run(self, fn, *a, **kw):
+        mon = sys.monitoring
+        mon.use_tool_id(TOOL_CRASH, "simkit-crash")
+        ev = mon.events.PY_RETURN if self.kind == "return" else mon.events.LINE
+        try:
+            mon.register_callback(TOOL_CRASH, ev, self._ret if self.kind == "return" else self._line)
+            for code in self.codes:
+                mon.set_local_events(TOOL_CRASH, code, ev)
+            return fn(*a, **kw)
+        finally:
+            for code in self.codes:
+                mon.set_local_events(TOOL_CRASH, code, 0)
+            mon.register_callback(TOOL_CRASH, ev, None)
+            mon.free_tool_id(TOOL_CRASH)
